@@ -142,6 +142,20 @@ Fixpoint visit_elems (f : node -> res (node * list hit)) (i : nat) (es : list no
       Ok (fst r :: fst rt, (map (push i) (snd r) ++ snd rt)%list)
   end.
 
+(* doSeq: visit every element; if nothing was returned and Create is set, append the new element and
+   start over (Go: `return p.doSeq(rn)`), at most [f] times. *)
+Fixpoint retry_loop (visit : node -> res (node * list hit)) (new_elem : node) (cr : bool)
+         (f : nat) (es : list node) {struct f} : res (list node * list hit) :=
+  match f with
+  | O => Diverge
+  | S f' =>
+      do r <- visit_elems visit 0 es;
+      match snd r with
+      | _ :: _ => Ok r
+      | [] => if cr then retry_loop visit new_elem cr f' (fst r ++ [new_elem])%list else Ok r
+      end
+  end.
+
 Section PM.
   Variable parse : string -> option re.   (* regexp.Compile; None = error *)
   Variable enc : node -> string.          (* strings.TrimSpace(RNode.String()): the go-yaml emitter *)
@@ -202,17 +216,7 @@ Section PM.
                         end
                     | _ => Ok (e, [])
                     end in
-                let retry :=
-                  fix retry (f : nat) (es : list node) {struct f} : res (list node * list hit) :=
-                    match f with
-                    | O => Diverge
-                    | S f' =>
-                        do r <- visit_elems visit_one 0 es;
-                        match snd r with
-                        | _ :: _ => Ok r
-                        | [] => if is_create then retry f' (fst r ++ [pm_new_elem fld v])%list else Ok r
-                        end
-                    end in
+                let retry := retry_loop visit_one (pm_new_elem fld v) is_create in
                 match n with
                 | Seq es => do r <- retry fuel es; Ok (Seq (fst r), snd r)
                 | _ =>
